@@ -988,6 +988,37 @@ func (ex *Ex) BuildSMT(q *Query, rounds int) string {
 				asserts = append(asserts, Implies(And(parts...), App("f$wfR", SBool, app)))
 			}
 		}
+		usesRsafe := false
+		for _, a := range asserts {
+			Walk(a, func(x *T) {
+				if x.Kind == kApp && x.Op == "f$rsafe" {
+					usesRsafe = true
+				}
+			})
+		}
+		if usesRsafe {
+			// program text is PII-free, hence also as (part of) a redactable string; concatenation
+			// of fragments that keep their PII inside markers keeps it inside markers (the fragments
+			// are well-formed: C06) - ground instances of axiom rsafe_concat
+			hasAx := false
+			for _, ax := range w.Axioms {
+				if ax.Name == "rsafe_concat" {
+					hasAx = true
+				}
+			}
+			if hasAx {
+				for _, k := range sortedKeys(lits) {
+					asserts = append(asserts, App("f$rsafe", SBool, lits[k]))
+				}
+				for _, app := range groundApps(asserts, func(op string) bool { return op == "str.++" }) {
+					var parts []*T
+					for _, a := range app.Args {
+						parts = append(parts, App("f$rsafe", SBool, a))
+					}
+					asserts = append(asserts, Implies(And(parts...), App("f$rsafe", SBool, app)))
+				}
+			}
+		}
 		if usesSafe {
 			for _, k := range sortedKeys(lits) {
 				asserts = append(asserts, App("f$safeS", SBool, lits[k]))
